@@ -191,6 +191,7 @@ struct plan {
     int ex_n;              /* exhaustive threshold on n */
     int pres_mode;         /* 0 identity only; 1 identity + one round-robin; 2 full product; 3 c02 set (id, dup1) */
     int perm_max;          /* all permutations when survivors <= perm_max */
+    int check_ledger;      /* 1: every case must leave the ledger of library allocations exactly as it found it (C16) */
     const char *prop;
 };
 struct xctx { struct stripe *s; const struct plan *pl; long rr; };
@@ -236,6 +237,7 @@ static void run_pres(struct xctx *x, uint32_t E, const struct pres *p)
     int tol = tolerated(s, E);
     int must = pl->strict && tol;
     long before = tap_calls[TAP_DECODE] + tap_calls[TAP_RECON];
+    long lc0 = ledger_count(), lb0 = ledger_bytes();
     if (pl->do_decode) {
         struct dec_res r = call_decode(s, list, nf, p->place, p->force);
         check_decode(s, E, &r, must);
@@ -259,6 +261,8 @@ static void run_pres(struct xctx *x, uint32_t E, const struct pres *p)
         }
     }
     if (tap_calls[TAP_DECODE] + tap_calls[TAP_RECON] > before) vh_nontrivial();
+    if (pl->check_ledger && (ledger_count() != lc0 || ledger_bytes() != lb0)) { char dd[200]; ledger_dump(dd, sizeof dd);
+        vh_violation("leak", "E=0x%x %s: decode + decode_cleanup + reconstruct left %ld blocks / %ld bytes allocated (live sizes: %s)", E, pn, ledger_count() - lc0, ledger_bytes() - lb0, dd); }
     if (!tol) vh_count("beyond_tolerance_cases", 1);
 }
 
@@ -502,7 +506,7 @@ static void plan_c06(int with_rs, int with_xor, int with_isa, const char *prop)
             int tmax = tol + 1 > n - 1 ? n - 1 : tol + 1;
             if (is_xor(sh[i].be) || n <= ex_n) enum_subsets(n, 1, tmax, on_union, &c);
             else {
-                int t = tmax; if (t > 6 && !thorough) t = 6; if (t > 8) t = 8;     /* 2^t subsets R per union */
+                int t = tmax; int cap = (int)vh_opt("st_t", thorough ? 8 : 6); if (t > cap) t = cap;     /* 2^t subsets R per union */
                 for_erasures(n, sh[i].k, sh[i].m, t, 0, on_union, &c);
             }
         }
@@ -853,7 +857,18 @@ static void plan_c15(void)
 /* ------------------------------------------------------------------ plan C16s: cleanup sweeps, ledger exact */
 static void plan_c16s(void)
 {
+    int thorough = !strcmp(vh_tier(), "thorough");
     struct shape *sh; int ns; collect_shapes(&sh, &ns, 1, 1, 1);
+    /* every erasure set up to one beyond tolerance (all of them for flat-XOR and for n <= ex_n, the structured family above): decode,
+     * its cleanup call, reconstruct of every missing index - the ledger must come back to where it was after every single case */
+    struct plan pl; memset(&pl, 0, sizeof pl);
+    pl.prop = "C16"; pl.strict = 0; pl.tmax_mode = 2; pl.do_decode = 1; pl.do_recon_missing = 1; pl.pres_mode = 1; pl.check_ledger = 1;
+    pl.ex_n = (int)vh_opt("ex_n", thorough ? 11 : 8);
+    for (int i = 0; i < ns; i++) {
+        uint64_t a = (uint64_t)sh[i].k * word_bytes(sh[i].be);
+        struct plan p2 = pl; if (is_xor(sh[i].be)) p2.ex_n = 32;
+        explore_stripe(&p2, sh[i], CHKSUM_CRC32, 2 * a + 3, PAT_RAMP, NULL, -1, -1);
+    }
     for (int i = 0; i < ns; i++) {
         uint64_t a = (uint64_t)sh[i].k * word_bytes(sh[i].be);
         if (!vh_group_begin("S/C16/%s/k%dm%dhd%d", be_name(sh[i].be), sh[i].k, sh[i].m, sh[i].hd)) continue;
